@@ -440,6 +440,107 @@ example : (staticdir unquote (fsOf treeOutside) (reqStatic "/static/f")).outcome
     lresolve treeOutside true (S "/t/root/f") = .file (P ["t", "root", "f"]) ∧
     noLinkAround treeOutside (components (normpath (S "/t/root"))) = true := by decide
 
+/-! ### FileSession on a tree with links -/
+
+theorem splitSlash_noslash_append (a b : Str) (ha : '/' ∉ a) :
+    ∃ x xs, splitSlash b = x :: xs ∧ splitSlash (a ++ b) = (a ++ x) :: xs := by
+  induction a with
+  | nil =>
+    cases hb : splitSlash b with
+    | nil => exact absurd hb (splitSlash_ne_nil b)
+    | cons x xs => exact ⟨x, xs, rfl, by simpa using hb⟩
+  | cons c a ih =>
+    have hc : c ≠ '/' := fun e => ha (by simp [e])
+    obtain ⟨x, xs, h1, h2⟩ := ih (fun h => ha (by simp [h]))
+    refine ⟨x, xs, h1, ?_⟩
+    simp only [List.cons_append, splitSlash, hc, if_false, h2]
+
+/-- The weak reading for the five `FileSession` methods. -/
+def C11_links_weak_session_full : Prop :=
+  ∀ (t : LTree) (cwd storage id : Str) (op : SessOp) (acc : List Access), isAbs cwd = true →
+    noLinkAround t (components (normpath (sessionRoot cwd storage))) = true →
+    sessOp op cwd (sessionRoot cwd storage) id = some acc →
+    ∀ a ∈ acc, ∀ q, (lresolve t true a.path = .dir q ∨ lresolve t true a.path = .file q) →
+      components (normpath (sessionRoot cwd storage)) <+: q
+
+def treeSess : LTree :=
+  ⟨[(P ["t"], .dir), (P ["t", "sess"], .dir), (P ["t", "sess", "session-"], .dir),
+    (P ["t", "other"], .dir), (P ["t", "other", "lnk"], .link (S "/x/y/z")),
+    (P ["x"], .dir), (P ["x", "y"], .dir), (P ["x", "y", "z"], .dir),
+    (P ["x", "sess"], .dir), (P ["x", "sess", "session-v"], .file)]⟩
+
+/-- **Violated as well** (F32b): the cookie id `/../../other/lnk/../../sess/session-v` passes the
+    lexical test as `/t/sess/session-v` and `_load` opens `/x/sess/session-v`. -/
+theorem C11_links_weak_session_false : ¬ C11_links_weak_session_full := by
+  intro h
+  have := h treeSess (S "/") (S "/t/sess") (S "/../../other/lnk/../../sess/session-v") .load
+    [⟨.openR, S "/t/sess/session-/../../other/lnk/../../sess/session-v"⟩] (by decide) (by decide)
+    (by decide) ⟨.openR, S "/t/sess/session-/../../other/lnk/../../sess/session-v"⟩ (by decide)
+    (P ["x", "sess", "session-v"]) (by decide)
+  revert this
+  decide
+
+/-- **What holds for sessions**: an id without a ".." component (in particular every id
+    `generate_id` produces, every id without `/`) reaches only objects at or below the storage
+    directory, in every tree with no link at / above / below it. -/
+theorem C11_links_weak_partial_session (t : LTree) (fl : Bool) (cwd storage id : Str) (op : SessOp)
+    (acc : List Access) (hcwd : isAbs cwd = true)
+    (hno : noLinkAround t (components (normpath (sessionRoot cwd storage))) = true)
+    (hid : ∀ c ∈ splitSlash id, c ≠ dotdot)
+    (h : sessOp op cwd (sessionRoot cwd storage) id = some acc) :
+    ∀ a ∈ acc, ∀ q, (lresolve t fl a.path = .dir q ∨ lresolve t fl a.path = .file q ∨
+        lresolve t fl a.path = .lnk q) →
+      components (normpath (sessionRoot cwd storage)) <+: q := by
+  intro a ha q hq
+  have hu := C11_session_contained cwd storage id hcwd op acc h a ha
+  obtain ⟨X, hX, hsp⟩ := sessionRoot_eq cwd storage hcwd
+  rw [hsp] at h hu hno ⊢
+  have habs : isAbs (normpath X) = true := normpath_abs_isAbs X hX
+  have hf : isAbs (sessionFile (normpath X) id) = true := isAbs_join _ _ habs
+  -- pieces of the file name: those of the storage path, then `session-` ++ first piece of id, ...
+  have hname : ∀ c ∈ splitSlash (sessionPrefix ++ id), c ≠ dotdot := by
+    obtain ⟨x, xs, h1, h2⟩ := splitSlash_noslash_append sessionPrefix id (by decide)
+    rw [h2]
+    intro c hc
+    rcases List.mem_cons.1 hc with rfl | hc
+    · simp [sessionPrefix, dotdot]
+    · exact hid c (by rw [h1]; simp [hc])
+  have hfile : ∀ c ∈ splitSlash (sessionFile (normpath X) id), c ≠ dotdot :=
+    splitSlash_join_nodotdot _ _ (splitSlash_normpath_nodotdot X hX) hname
+  have hlock : ∀ c ∈ splitSlash (sessionFile (normpath X) id ++ lockSuffix), c ≠ dotdot := by
+    obtain ⟨init, last, h1, h2⟩ := splitSlash_append_noslash (sessionFile (normpath X) id) lockSuffix (by decide)
+    rw [h2]
+    intro c hc
+    rcases List.mem_append.1 hc with hc | hc
+    · exact hfile c (by rw [h1]; simp [hc])
+    · simp only [List.mem_singleton] at hc
+      subst hc
+      intro e
+      have : (last ++ lockSuffix).length = 2 := by rw [e]; rfl
+      simp [lockSuffix] at this
+  have hpath : isAbs a.path = true ∧ ∀ c ∈ splitSlash a.path, c ≠ dotdot := by
+    unfold sessOp getFilePath at h
+    by_cases hchk : sessionCheck cwd (normpath X) id = true
+    · simp only [hchk, if_true, Option.some.injEq] at h
+      rw [← h] at ha
+      cases op with
+      | exists_ =>
+        simp only at ha
+        split at ha
+        · simp at ha
+        · simp only [List.mem_singleton] at ha; rw [ha]; exact ⟨hf, hfile⟩
+      | load => simp only [List.mem_singleton] at ha; rw [ha]; exact ⟨hf, hfile⟩
+      | save => simp only [List.mem_singleton] at ha; rw [ha]; exact ⟨hf, hfile⟩
+      | delete => simp only [List.mem_singleton] at ha; rw [ha]; exact ⟨hf, hfile⟩
+      | acquireLock =>
+        simp only [List.mem_singleton] at ha; rw [ha]; exact ⟨isAbs_append _ _ hf, hlock⟩
+    · simp [hchk] at h
+  exact C11_links_weak_partial t fl (normpath X) a.path q hpath.1 hu hpath.2 hno hq
+
+example : sessOp .load (S "/") (sessionRoot (S "/") (S "/t/sess")) (S "v") =
+    some [⟨.openR, S "/t/sess/session-v"⟩] ∧
+    noLinkAround treeSess (components (normpath (sessionRoot (S "/") (S "/t/sess")))) = true := by decide
+
 /-- A relative link inside the root that stays inside, followed by the kernel (fuel is used). -/
 example : lresolve ⟨[(P ["t"], .dir), (P ["t", "a"], .dir), (P ["t", "a", "f"], .file),
       (P ["t", "l"], .link (S "a/./f"))]⟩ true (S "/t/l") = .file (P ["t", "a", "f"]) ∧
